@@ -65,6 +65,9 @@ C = dict(
         dict(module="ChannelMapping", cfg="ChannelMapping_MC.cfg", tiers=["thorough"], workers=8, timeout=1500),
         # with collection starts that fail on a later shard after the pair's critical section ran (OfferFail)
         dict(module="ChannelMapping", cfg="ChannelMapping_MCf.cfg", workers=8),
+        # with up to three concurrent collection starts (startReadChannel as lookup / connect / commit under one lock)
+        dict(module="ChannelMapping", cfg="ChannelMapping_MCcq.cfg", tiers=["quick"], workers=8),
+        dict(module="ChannelMapping", cfg="ChannelMapping_MCc.cfg", tiers=["thorough"], workers=8, timeout=1500),
     ],
     # plans are generated from the design AS BUILT (all deviation switches FALSE): they contain the schedules
     # on which the current code leaves the contract
@@ -83,13 +86,25 @@ C = dict(
              depth=16, cap={"quick": 200, "thorough": 4000}),
         dict(name="sim", module="ChannelMapping", cfg="ChannelMapping_PlanSim.cfg", simulate={"quick": 20, "thorough": 300},
              depth=16, cap={"quick": 400, "thorough": 6000}),
+        # histories with concurrent collection starts (real manager only; sampled in expand(): CONC_CAP)
+        src("conc5", "ChannelMapping_PlanC3.cfg", ["quick", "thorough"]),
+        src("conc5w", "ChannelMapping_PlanC.cfg", ["thorough"]),
+        src("conc6", "ChannelMapping_PlanC36.cfg", ["thorough"]),
+        dict(name="simconc", module="ChannelMapping", cfg="ChannelMapping_PlanSimC.cfg", simulate={"quick": 10, "thorough": 200},
+             depth=16, cap={"quick": 150, "thorough": 4000}),
+        # histories with starts of collections that are already dropped upstream (real manager only; filtered to those
+        # with such a start and sampled in expand(): DROP_CAP)
+        src("drop4", "ChannelMapping_PlanD34.cfg", ["quick", "thorough"]),
+        src("drop4w", "ChannelMapping_PlanD4.cfg", ["thorough"]),
+        src("drop5", "ChannelMapping_PlanD3.cfg", ["thorough"]),
     ],
     directed="plans/C16.jsonl",
     trace=("ChannelMapping_Trace", "ChannelMapping_Trace.cfg"),
     death="violation",
     nontrivial=lambda t: any(len(e.get("map", [])) > 0 for e in t["events"]),
     rule="plans = histories of ChannelMapping.tla with the code's deviations switched on: all histories up to the cfg's depth "
-         "(offer orders up to renaming of channels, every interleaving of forwardChannel/waitChannel sections), one history per "
+         "(offer orders up to renaming of channels, every interleaving of forwardChannel/waitChannel sections; with concurrent collection starts: of their "
+         "lookup / connect / commit steps, at most two calls in flight), one history per "
          "distinct design state for the deeper configurations, TLC -simulate at depth 16; a trace is non-trivial if at least one "
          "assignment was made; distinct = distinct event sequences",
     assumptions=[
@@ -106,10 +121,51 @@ C = dict(
         "offerfail = StartReadCollection of a two-shard collection whose second shard's stream cannot be opened (fake MQ refuses the "
         "consumer): the first shard's pair goes through startReadChannel, then the start is undone; the assignment made for the "
         "pair must stay (Stable) and later offers are judged as usual",
+        "offerstart / connect = a StartReadCollection call in a goroutine of its own whose mq connection check (fake stream "
+        "factory: AsConsumer) is held until the plan's connect step, at most two calls in flight in the generated plans; a call "
+        "counts as an offer from the moment it returns; every call still in flight at the end of a plan is let go (settle), one "
+        "at a time, and the dump after each is judged",
+        "offerdropped = StartReadCollection of a collection whose source state is CollectionDropped / CollectionDropping and "
+        "which exists in the downstream catalog (dropped upstream while cdc was away); no seek position, so the handler generates "
+        "no drop message; judged as an offer like any other",
         "channel names: distinct name spaces (s1.., t1..) and identical names on both sides (ch1..)",
         "TLC exhaustiveness holds for the constants in the cfg files only (counts 1..4 x 1..4)",
     ],
 )
+
+
+# plans of the concurrent sources replayed per tier: (with two calls in flight at once, with one call at a time)
+CONC_SRC = ("conc5", "conc5w", "conc6", "simconc")
+CONC_CAP = {"quick": {"conc5": (350, 60)}, "thorough": {"conc5": (3000, 1000), "conc5w": (6000, 500), "conc6": (8000, 500)}}
+
+
+DROP_SRC = ("drop4", "drop4w", "drop5")
+DROP_CAP = {"quick": 300, "thorough": 6000}
+
+
+def conc_sample(plans, tier):
+    """the exhaustive concurrent sources contain every sequential history as well: keep the plans with an offerstart, all
+    (thorough: up to the cap) of those in which two calls are in flight at once and a sample of the others"""
+    out, pool = [], {}
+    for p in plans:
+        if p.get("src") in DROP_SRC:
+            if any(st.get("op") == "offerdropped" for st in p.get("steps", [])):
+                pool.setdefault((p["src"], None), []).append(p)
+            continue
+        if p.get("src") not in CONC_SRC:
+            out.append(p)
+            continue
+        starts = [st for st in p.get("steps", []) if st.get("op") == "offerstart"]
+        if not starts and not (p["src"] == "simconc" and any(st.get("op") == "offerdropped" for st in p.get("steps", []))):
+            continue
+        if p["src"] == "simconc":
+            out.append(p)
+            continue
+        pool.setdefault((p["src"], any(st.get("c", 1) > 1 for st in starts)), []).append(p)
+    for (name, two), ps in sorted(pool.items(), key=lambda kv: str(kv[0])):
+        cap = DROP_CAP[tier] if two is None else CONC_CAP.get(tier, {}).get(name, (1000, 200))[0 if two else 1]
+        out.extend(vlib.sample(ps, cap))
+    return out
 
 
 def expand(fp_known):
@@ -117,11 +173,13 @@ def expand(fp_known):
     fingerprinted one) and on the real replicateChannelManager (driver chanmgr, verif gates H6)"""
     def f(plans, tier):
         out = []
-        for i, p in enumerate(plans):
+        for i, p in enumerate(conc_sample(plans, tier)):
             fails = any(st.get("op") == "offerfail" for st in p.get("steps", []))
             if p.get("src") in ("fail4", "fail5", "simfail") and not fails:
                 continue
-            if fails:     # the transcription driver knows nothing about StartReadCollection's failure path
+            conc = any(st.get("op") in ("offerstart", "connect", "acquire", "offerdropped") for st in p.get("steps", []))
+            if fails or conc:     # the transcription driver knows nothing about StartReadCollection's failure path / concurrent
+                                  # calls / the state of the collection
                 out.append(dict(p, plan="real-" + str(p["plan"]), driver="chanmgr"))
                 continue
             if fp_known and (tier == "thorough" or p.get("src") == "directed" or i % 4 == 0):
@@ -153,6 +211,18 @@ def run(tier, replay=None):
             if "Contract" not in r.violated:
                 raise vlib.Inconclusive("%s no longer shows the contract violation of the code as built:\n%s" % (cfg, r.out[-2000:]))
             vlib.log("[c16] %s: design as built violates the contract, as expected (%d states)" % (cfg, r.distinct))
+    if not replay:
+        # negative control: startReadChannel with the lookup and the commit in separate critical sections (OfferAtomic = FALSE)
+        # is a defect class the code does not have; the design must then leave Stable
+        r = vlib.run_tlc("ChannelMapping", "ChannelMapping_NonAtomic.cfg", workers=4, timeout=600, tag="c16-nonatomic")
+        if "Stable" not in r.violated:
+            raise vlib.Inconclusive("ChannelMapping_NonAtomic.cfg (negative control) no longer violates Stable:\n%s" % r.out[-2000:])
+        vlib.log("[c16] ChannelMapping_NonAtomic.cfg: non-atomic startReadChannel violates Stable, as expected (%d states)" % r.distinct)
+        # negative control: a collection that is already dropped upstream bypasses the quota (DroppedChecksQuota = FALSE)
+        r = vlib.run_tlc("ChannelMapping", "ChannelMapping_DroppedBypass.cfg", workers=4, timeout=600, tag="c16-dropped")
+        if "Contract" not in r.violated:
+            raise vlib.Inconclusive("ChannelMapping_DroppedBypass.cfg (negative control) no longer violates Contract:\n%s" % r.out[-2000:])
+        vlib.log("[c16] ChannelMapping_DroppedBypass.cfg: quota bypass for dropped collections violates Contract, as expected (%d states)" % r.distinct)
     c = dict(C)
     if not replay and tier == "thorough":
         # unbounded-history side check (Apalache): the invariant of ChannelMapping_Ind.tla is inductive for all channel counts
